@@ -9,10 +9,21 @@ package adjRIBIn
 // mark is the path's HiddenReason (policy evaluation preserves it), so the
 // obligation sits at every call that hands a path to a client.
 //@ contract (*AdjRIBIn).addPath
-//@   props C06
+//@   props C06 C20
 //@   nosafety
 //@   requires pfx != nil && p != nil
 //@   call RouteTableClient.AddPath args cpfx *net.Prefix, q *route.Path requires q.HiddenReason == route.HiddenReasonNone
+//@   call[C20] RoutingTable.AddPath args cpfx *net.Prefix, q *route.Path requires cpfx == pfx && q == p
+//@   call[C20] RoutingTable.ReplacePath args cpfx *net.Prefix, q *route.Path requires cpfx == pfx && q == p && !a.sessionAttrs.AddPathRX
+//@   call[C20] RoutingTable.RemovePath args cpfx *net.Prefix, q *route.Path requires cpfx == pfx && a.sessionAttrs.AddPathRX && q.BGPPath.PathIdentifier == p.BGPPath.PathIdentifier
+
+// Property C20 (withdraw side): exactly the path with the NLRI's path identifier
+// is removed on an add-path session.
+//@ contract (*AdjRIBIn).removePath
+//@   props C20
+//@   nosafety
+//@   requires pfx != nil
+//@   call RoutingTable.RemovePath args cpfx *net.Prefix, q *route.Path requires cpfx == pfx && (a.sessionAttrs.AddPathRX && p != nil ==> q.BGPPath.PathIdentifier == p.BGPPath.PathIdentifier)
 
 // Property C12 (import side): when the new policy rejects a path the old policy
 // accepted, the client must be told to remove the path it holds, i.e. the path as
